@@ -57,6 +57,22 @@ func main() {
 			os.Exit(2)
 		}
 		core.ChildMain(p, *tier, *seed, *k, *w, *n, *dir, *only, *verbose, time.Duration(*budget)*time.Millisecond)
+	case "parchild":
+		fs := flag.NewFlagSet("parchild", flag.ExitOnError)
+		prop := fs.String("prop", "", "")
+		tier := fs.String("tier", "quick", "")
+		seed := fs.Uint64("seed", 1, "")
+		k := fs.Int("k", 0, "")
+		w := fs.Int("w", 1, "")
+		n := fs.Int("n", 0, "")
+		g := fs.Int("g", 4, "")
+		dir := fs.String("dir", "", "")
+		fs.Parse(os.Args[2:])
+		p := core.Lookup(*prop)
+		if p == nil {
+			os.Exit(2)
+		}
+		core.ParChildMain(p, *tier, *seed, *k, *w, *n, *g, *dir)
 	case "replay":
 		fs := flag.NewFlagSet("replay", flag.ExitOnError)
 		file := fs.String("file", "", "")
